@@ -168,7 +168,8 @@ class C20(Spec):
             h.append("new %d %s %d %d %d" % (s, ty, kk, k, d))
             dims[s] = d
         live = list(range(nsk))
-        nxt = nsk
+        nb = {x: 0 for x in live}     # upper bound of n per sketch: sketches that feed each other double n at every merge; keep n <= 2^20
+        nxt = nsk                     # (levels stay far below 31, where get_estimate's `1 << height` overflows: separate corpus witness w4)
         nops = rng.choice([15, 40, 90, 200]) if tier == "quick" else rng.choice([40, 150, 400, 900])
         for _ in range(nops):
             r = rng.random()
@@ -176,6 +177,7 @@ class C20(Spec):
             d = dims[s]
             if r < 0.74:
                 h.append("upd %d %s" % (s, self._point(rng, ty, d, mode)))
+                nb[s] += 1
             elif r < 0.765:
                 wd = rng.choice([x for x in (0, 1, 2, 3, 4, 5) if x != d])
                 h.append(("upd %d %s" % (s, self._point(rng, ty, wd, mode))).rstrip())
@@ -186,6 +188,9 @@ class C20(Spec):
                 h.append("q %d %s" % (s, self._point(rng, ty, d + rng.choice([1, 2]), mode)))
             elif r < 0.91 and len(live) > 1:
                 o = rng.choice([x for x in live if x != s])
+                if nb[s] + nb[o] > 2 ** 20:
+                    continue
+                nb[s] += nb[o]
                 if rng.random() < 0.2 and len(live) > 2:
                     h.append("mergemv %d %d" % (s, o))
                     live.remove(o)
@@ -193,12 +198,14 @@ class C20(Spec):
                     h.append("merge %d %d" % (s, o))
             elif r < 0.935 and nxt < 6:
                 h.append("copy %d %d" % (s, nxt))
+                nb[nxt] = nb[s]
                 dims[nxt] = d
                 live.append(nxt)
                 nxt += 1
             elif r < 0.95 and nxt < 6:
                 k = rng.randrange(2, kmax + 1)
                 h.append("new %d %s %d %d %d" % (nxt, ty, ker, k, d))
+                nb[nxt] = 0
                 dims[nxt] = d
                 live.append(nxt)
                 nxt += 1
@@ -249,12 +256,46 @@ class C20(Spec):
         hs += ex if tier != "quick" else ex[::3]
         return hs
 
+    class Inputs:
+        """accepted points of one sketch: multiset keyed by the coordinate bit patterns (merges that feed each other double n, so the
+        multiset holds counts, not copies) + the ordered list while it is short (only needed in exact mode, i.e. <= k points)."""
+        MAXLIST = 4096
+
+        def __init__(self, pool=None, lst=None, total=0):
+            self.pool = dict(pool or {})
+            self.lst = list(lst) if lst is not None else None
+            self.total = total
+
+        @staticmethod
+        def key(p):
+            return tuple(struct.pack("<d", x) for x in p)
+
+        def add(self, p):
+            k = self.key(p)
+            self.pool[k] = self.pool.get(k, 0) + 1
+            self.total += 1
+            if self.lst is not None:
+                self.lst.append(p)
+                if len(self.lst) > self.MAXLIST:
+                    self.lst = None
+
+        def merged(self, other):
+            r = C20.Inputs(self.pool, None, self.total + other.total)
+            for k, c in other.pool.items():
+                r.pool[k] = r.pool.get(k, 0) + c
+            if self.lst is not None and other.lst is not None and len(self.lst) + len(other.lst) <= self.MAXLIST:
+                r.lst = self.lst + other.lst
+            return r
+
+        def copy(self):
+            return C20.Inputs(self.pool, self.lst, self.total)
+
     # ------------------------------------------------------------------------- the property statement on one implementation trace
     def oracle(self, hist, impl_out):
         bad = []
         cfg = {}        # id -> dict(ty, ker, k, dim)
         exp_n = {}      # id -> number of points the sketch was legitimately given (updates + merged n)
-        inputs = {}     # id -> list of accepted points (tuples of floats), in order
+        inputs = {}     # id -> Inputs: the accepted points as a multiset (always) and in order (while short)
         last = {}       # id -> last S observation
         lossy = set()   # ids whose n already disagreed (known finding): exact-mode mean is not checked on them any more
 
@@ -314,7 +355,7 @@ class C20(Spec):
                     continue
                 cfg[sid] = dict(ty=ty, ker=ker, k=k, dim=dim)
                 exp_n[sid] = 0
-                inputs[sid] = []
+                inputs[sid] = C20.Inputs(lst=[])
                 lossy.discard(sid)
                 if o["n"] != 0 or o["r"] != 0 or o["em"] or not o["emp"]:
                     bad.append(("new-sketch-not-empty", out[:80], i))
@@ -339,7 +380,7 @@ class C20(Spec):
                     bad.append(("bad-observation" if out != "throw" else "valid-update-refused", out[:80], i))
                     continue
                 exp_n[sid] += 1
-                inputs[sid].append(pt)
+                inputs[sid].add(pt)
                 check_state(sid, o, i)
                 last[sid] = o
                 continue
@@ -373,7 +414,7 @@ class C20(Spec):
                         lossy.add(a)
                     else:
                         exp_n[a] = want
-                        inputs[a] = inputs[a] + inputs[b]
+                        inputs[a] = inputs[a].merged(inputs[b])
                         if b in lossy:
                             lossy.add(a)
                     check_state(a, o, i)
@@ -391,7 +432,7 @@ class C20(Spec):
                 if o is None:
                     bad.append(("bad-observation", out[:80], i))
                     continue
-                cfg[b] = dict(cfg[a]); exp_n[b] = exp_n[a]; inputs[b] = list(inputs[a])
+                cfg[b] = dict(cfg[a]); exp_n[b] = exp_n[a]; inputs[b] = inputs[a].copy()
                 if a in lossy:
                     lossy.add(b)
                 else:
@@ -427,11 +468,16 @@ class C20(Spec):
                     continue
                 e = unhex(c["ty"], tok)
                 self._count("estimates_checked_nonneg_finite")
+                if e < 0.0 and ls is not None and ls["L"] is not None and ls["L"] >= 32:
+                    bad.append(("estimate-negative-level31-weight-overflow",
+                                "estimate=%r with %d levels: get_estimate weights level 31 by (int)(1 << 31) = -2^31" % (e, ls["L"]), i))
+                    continue
                 if math.isinf(e) or e < 0.0:
                     bad.append(("estimate-negative-or-not-finite", repr(e), i))
                     continue
-                if ls is not None and ls["L"] == 1 and sid not in lossy and inputs[sid] and len(inputs[sid]) == ls["n"]:
-                    vals = [kernel_value(c["ty"], c["ker"], p, q) for p in inputs[sid]]
+                il = inputs[sid].lst
+                if ls is not None and ls["L"] == 1 and sid not in lossy and il and len(il) == ls["n"]:
+                    vals = [kernel_value(c["ty"], c["ker"], p, q) for p in il]
                     n = len(vals)
                     self._count("exact_mode_mean_checks")
                     mean = sum(Fraction(v) for v in vals) / n
@@ -454,19 +500,17 @@ class C20(Spec):
                 if ls is not None and len(pts) != ls["r"]:
                     bad.append(("retained-ne-iterated", "get_num_retained=%d dumped=%d" % (ls["r"], len(pts)), i))
                 if sid not in lossy:
-                    pool = {}
-                    for p in inputs[sid]:
-                        key = tuple(struct.pack("<d", x) for x in p)
-                        pool[key] = pool.get(key, 0) + 1
+                    used = {}
                     for wt, p in pts:
-                        key = tuple(struct.pack("<d", x) for x in p)
-                        if pool.get(key, 0) <= 0:
+                        key = C20.Inputs.key(p)
+                        used[key] = used.get(key, 0) + 1
+                        if used[key] > inputs[sid].pool.get(key, 0):
                             bad.append(("retained-point-not-an-input", "point %s weight %d" % (list(p), wt), i))
                             break
-                        pool[key] -= 1
-                    if ls is not None and ls["L"] == 1:
-                        if [tuple(struct.pack("<d", x) for x in p) for _, p in pts] != [tuple(struct.pack("<d", x) for x in p) for p in inputs[sid]]:
-                            bad.append(("exact-mode-points-ne-inputs", "retained=%d inputs=%d" % (len(pts), len(inputs[sid])), i))
+                    il = inputs[sid].lst
+                    if ls is not None and ls["L"] == 1 and il is not None:
+                        if [C20.Inputs.key(p) for _, p in pts] != [C20.Inputs.key(p) for p in il]:
+                            bad.append(("exact-mode-points-ne-inputs", "retained=%d inputs=%d" % (len(pts), len(il)), i))
                 continue
         return bad
 
@@ -500,13 +544,15 @@ CLAIM = dict(
     text=("Kernel-checked theorems over ALL point streams, k, dimensions, merge trees and kept-subset choices of an executable Lean model of "
           "density_sketch: the compaction loop terminates for every choice (measure proof); num_retained = iterated points = sum of level sizes with "
           "weights 2^level; num_retained <= k*levels after every operation; wrong-dimension updates/merges refused; n exact for every history without an "
-          "emptied merge operand; in exact arithmetic the estimate is the exact kernel mean while one level exists and is >= 0 for a non-negative kernel. "
-          "The model (with the code's own random-bit/shuffle/discrepancy-sign choice, in Float and Float32) is tied bit-exactly to the real headers on "
-          "generated histories, and the property statement is checked on every implementation trace. Two statements are FALSE of the current code and "
-          "kept as *_full_false with witnesses replayed every run: merge drops n of an operand whose compaction kept nothing; get_estimate does not "
-          "check the query dimension."),
+          "emptied merge operand; in exact arithmetic the estimate is the exact kernel mean while one level exists and is >= 0 for a non-negative kernel "
+          "while there are <= 31 levels. The model (with the code's own random-bit/shuffle/discrepancy-sign choice, in Float and Float32) is tied "
+          "bit-exactly to the real headers on generated histories, and the property statement is checked on every implementation trace. Three statements "
+          "are FALSE of the current code and kept as *_full_false with witnesses replayed every run (open known findings, proposed_fixes/C20-*.patch): "
+          "merge drops n of an operand whose compaction kept nothing; get_estimate does not check the query dimension; get_estimate weights level 31 "
+          "by (int)(1<<31) (negative estimates at n ~ k*2^31, undefined behaviour beyond)."),
     note=("Float rounding is not modelled in the theorems (Rat instance); counters are unbounded naturals; the tie is differential (sampled). "
           "A change of which subset compact_level keeps (e.g. no shuffle) preserves the property but breaks the bit-exact concrete correspondence and is "
-          "reported as `no-failing-input-found`. Self-merge (use-after-free) is outside the check."),
+          "reported as `no-failing-input-found`; the same holds for a change of the estimate in estimation mode that stays finite and non-negative. "
+          "Self-merge (use-after-free) and non-finite coordinates are outside the check."),
     technique="Lean 4 invariant + measure proofs over histories and all choice functions; differential correspondence with supplied randomness; trace oracle",
     design="DESIGN.md §3 C20")
